@@ -27,12 +27,19 @@ FluxOf(pat, m) ==
 
 PermsOf == [m \in 1..MaxN |-> Perms(m)]
 
+\* the catalogue positions are chosen in Init, the flux pattern and the linking
+\* length in Pick (so that TLC's workers share the enumeration)
 Init == /\ \E m \in 1..MaxN :
-              /\ pts \in {s \in [1..m -> 0..(W * H - 1)] :
-                              \A i \in 1..(m - 1) : s[i] <= s[i + 1]}
-              /\ \E pat \in FluxPats : flux = FluxOf(pat, m)
-        /\ E \in Es
-        /\ pc = "in" /\ G = {} /\ isl = <<>> /\ src = <<>>
+              pts \in {s \in [1..m -> 0..(W * H - 1)] :
+                          \A i \in 1..(m - 1) : s[i] <= s[i + 1]}
+        /\ flux = <<>> /\ E = 0
+        /\ pc = "pick" /\ G = {} /\ isl = <<>> /\ src = <<>>
+
+Pick == /\ pc = "pick"
+        /\ \E pat \in FluxPats : flux' = FluxOf(pat, n)
+        /\ E' \in Es
+        /\ pc' = "in"
+        /\ UNCHANGED <<pts, G, isl, src>>
 
 Group == /\ pc = "in"
          /\ G' = Groups(n, Nb)
@@ -46,14 +53,14 @@ Label == /\ pc = "grouped"
          /\ pc' = "labelled"
          /\ UNCHANGED <<pts, flux, E, G>>
 
-Next == Group \/ Label
+Next == Pick \/ Group \/ Label
 Spec == Init /\ [][Next]_vars
 
 \* ---- theorems ------------------------------------------------------------
-WellPosed        == EpsBetween(xy, E) /\ Symmetric(n, Nb)
-PartitionThm     == pc # "in" => IsPartition(G, n)
-ChainThm         == pc # "in" => IsChainPartition(G, n, Nb)
-ComponentsThm    == pc # "in" => IsEpsPartition(G, n, Nb) /\ BlocksChainConnected(G, n, Nb)
+WellPosed        == pc # "pick" => EpsBetween(xy, E) /\ Symmetric(n, Nb)
+PartitionThm     == pc \in {"grouped", "labelled"} => IsPartition(G, n)
+ChainThm         == pc \in {"grouped", "labelled"} => IsChainPartition(G, n, Nb)
+ComponentsThm    == pc \in {"grouped", "labelled"} => IsEpsPartition(G, n, Nb) /\ BlocksChainConnected(G, n, Nb)
 PermInvariantThm == pc = "grouped" =>
                        \A pi \in PermsOf[n] :
                           Unpermute(Groups(n, NbLat(Permute(xy, pi), E)), pi) = G
